@@ -35,6 +35,9 @@ type Case struct {
 	Levels   []int   `json:"levels"`   // per event
 	Outcomes [][]int `json:"outcomes"` // [leaf destination][event]: 0 ok, 1.. error id, -1 short(len-1), -2 short(0)
 	Single   bool    `json:"single,omitempty"`
+	// Direct: the fan-out is used as a plain io.Writer (Write, no level), e.g. behind the standard
+	// library logger: every destination, filtered or not, receives every line
+	Direct bool `json:"direct_write,omitempty"`
 }
 
 type got struct {
@@ -136,9 +139,15 @@ func run(c *Case) (msg string, nontrivial bool) {
 	for ei, lv := range c.Levels {
 		handled = handled[:0]
 		returned := false
+		var directErr error
 		func() {
 			defer func() { recover() }()
-			l.WithLevel(zerolog.Level(lv)).Int("event", ei).Msg("m")
+			if c.Direct {
+				line := fmt.Sprintf("direct line %d\n", ei)
+				_, directErr = zerolog.MultiLevelWriter(ws...).Write([]byte(line))
+			} else {
+				l.WithLevel(zerolog.Level(lv)).Int("event", ei).Msg("m")
+			}
 			returned = true
 		}()
 		if !returned {
@@ -148,11 +157,14 @@ func run(c *Case) (msg string, nontrivial bool) {
 		if lv == 6 {
 			line = fmt.Sprintf("{\"event\":%d,\"message\":\"m\"}\n", ei)
 		}
+		if c.Direct {
+			line = fmt.Sprintf("direct line %d\n", ei)
+		}
 		var firstErr error
 		for li, lf := range leaves {
 			pass := true
 			for _, f := range filters[li] {
-				if lv < f {
+				if lv < f && !c.Direct {
 					pass = false
 				}
 			}
@@ -160,7 +172,7 @@ func run(c *Case) (msg string, nontrivial bool) {
 				continue
 			}
 			lvl := lv
-			if lf.kind == "plain" || c.Single && lf.kind == "plain" {
+			if lf.kind == "plain" || c.Direct {
 				lvl = -100
 			}
 			want[li] = append(want[li], got{lvl, line})
@@ -184,6 +196,12 @@ func run(c *Case) (msg string, nontrivial bool) {
 					nontrivial = true
 				}
 			}
+		}
+		if c.Direct {
+			if directErr != firstErr {
+				return fmt.Sprintf("line %d: Write returned error %v, want %v (the first failing destination)", ei, directErr, firstErr), nontrivial
+			}
+			continue
 		}
 		if firstErr == nil && len(handled) != 0 {
 			return fmt.Sprintf("event %d: ErrorHandler called %d times (%v) although no destination failed", ei, len(handled), handled), nontrivial
@@ -332,6 +350,8 @@ func TestRapid(t *testing.T) {
 		}
 		if nl == 1 && len(c.Dests) == 1 && c.Dests[0].Kind != "multi" && rapid.Bool().Draw(rt, "single") {
 			c.Single = true
+		} else if rapid.IntRange(0, 4).Draw(rt, "direct") == 0 {
+			c.Direct = true
 		}
 		// nested multi writers report short writes of inner destinations as ErrShortWrite too; the
 		// "first failing destination" is in depth-first order, which the flat model reproduces
